@@ -21,11 +21,13 @@ Theorems (statements readable on their own):
                       dispatcher hands over
 * `Full_aux_same_tag`, `Full_aux_pending`
                       those attributes are the ones of the lexeme being handled
-* `Full_elemAct_faithful`, `Full_endTagHandler_faithful`   adapters are faithful
+* `Full_elemAct_faithful`, `Full_endTagHandler_faithful`, `Full_unhash`, `Full_unhash_gen`   adapters are faithful
+* `Full_vec_loops_never_fail`, `Full_handleEnd_clean`; `Full_clean_statement` (not proved)
 -/
 import LolHtml.Model.FullCtl
 import LolHtml.Lemmas.FullObs
 import LolHtml.Lemmas.InvDisp
+import LolHtml.Lemmas.FullUnhash
 import LolHtml.Thm.C01
 import LolHtml.Thm.C11
 import LolHtml.Thm.C12
@@ -536,11 +538,14 @@ the refcount invariant of pkg scope (C05_refcount) and the stack / program invar
 transported to `St`, and C15's lexeme-range invariant for the slices. Lane `full`: never observed. -/
 def Full_clean_statement : Prop := ∀ cfg : Cfg, CtlClean (fullCtl cfg)
 
-/-- **Full statement** (NOT proved in general; `Full_unhash_gen` proves it for every declared tag): the
-name bytes handed to the selector VM for a hashed `LocalName` are the lower-cased tag name. -/
-def Full_unhash_statement : Prop :=
-  ∀ (n : Bytes) (c : UInt8) (rest : Bytes), n = c :: rest → isAsciiAlpha c = true →
-    NameHash.ofBytes n ≠ emptyHash → unhash (NameHash.ofBytes n) = asciiLowerBytes n
+/-- **Full_unhash.** For every tag name that `LocalNameHash` can represent (letters and the digits
+1–6, short enough, first character a letter — which the tokenizer guarantees), the name bytes the glue
+hands to the selector VM for the hashed `LocalName` are the lower-cased tag name; the VM compares
+names ASCII-case-insensitively, so it sees the same name as with the raw bytes. -/
+theorem Full_unhash (c : UInt8) (rest : Bytes) (halpha : isAsciiAlpha c = true)
+    (hne : NameHash.ofBytes (c :: rest) ≠ emptyHash) :
+    nameBytes (.hash (NameHash.ofBytes (c :: rest))) = asciiLowerBytes (c :: rest) :=
+  unhash_ofBytes c rest halpha hne
 
 /-! ## Instantiation at the code's current tables, non-vacuity (kernel-evaluated runs of the whole model) -/
 
